@@ -54,6 +54,9 @@ def cases(tier, seed):
             out.append(dict(type="cube", kind=kind, eq=["a"], quick=tier == "quick", hyper=True))
         out.append(dict(type="strings", kind=kind, eq=eqs))
         out.append(dict(type="system", kind=kind, eq=BOUNDS[tier]["eq"]))
+    # a parameter whose derivative is not finite at the current value (sqrt(k) at k = 0): when no term selects it, its
+    # gradient is exactly zero (the graph is cut), never NaN
+    out.append(dict(type="nonfinite", kind="ode", eq=["a", "k"]))
     return [c for c in out if not (c["type"] == "system" and c["kind"] == "statio")]
 
 
@@ -247,6 +250,40 @@ def tier_is_quick(case):
     return case.get("quick", False)
 
 
+def run_nonfinite(case):
+    site = "derivative_keys/ode/non_finite_derivative"
+
+    def ot(inp, out, p):
+        return out * (1.0 + 0.3 * p.eq_params["a"]) + jnp.sqrt(p.eq_params["k"]) * jnp.sum(inp)
+
+    u, _, _ = L.make_u("ode", 1, 1, deg=2, salt=5, output_transform=ot)
+    params = Params(nn_params=u.init_params(), eq_params={"k": jnp.asarray(0.0), "a": jnp.asarray(0.7)})
+    pts = L.points(3, 1)
+    obs = {"pinn_in": jnp.asarray(L.points(3, 1, salt=7)), "val": jnp.asarray(np.array([[0.2], [-0.1], [0.4]])), "eq_params": {}}
+    batch = L.make_batch("ode", pts, obs=obs)
+    terms = TERMS["ode"]
+    specs = {
+        "default": None,
+        "from_str(nn_params)": DerivativeKeysODE.from_str(params=params, **{t: "nn_params" for t in terms}),
+        "boolean tree (a selected, k not)": DerivativeKeysODE(**{t: Params(nn_params=True, eq_params={"a": True, "k": False}) for t in terms}),
+    }
+    v, n = [], 0
+    for name, dk in specs.items():
+        loss = L.quiet(jinns.loss.LossODE, u=u, dynamic_loss=EqODE(), initial_condition=(0.3, jnp.asarray([0.2])), derivative_keys=dk, params=params)
+        for mode in ("eager", "jit"):
+            f = (lambda p: loss.evaluate(p, batch)[0])
+            val, g = (jax.value_and_grad(f)(params) if mode == "eager" else jax.jit(jax.value_and_grad(f))(params))
+            n += 1
+            gk = float(g.eq_params["k"])
+            if not np.isfinite(float(val)):
+                raise RuntimeError("harness problem: the loss value must be finite")
+            if gk != 0.0:
+                v.append(V(site, "unselected_parameter_with_non_finite_derivative_gets_a_non_zero_gradient", f"specification {name}, {mode}: d/dk = {gk}"))
+            if name.startswith("boolean") and not np.isfinite(float(g.eq_params["a"])):
+                v.append(V(site, "selected_parameter_gradient_not_finite", f"{mode}: {float(g.eq_params['a'])}"))
+    return dict(viol=v, evals=n, nontrivial=[f"nonfinite|{k}" for k in specs], outcomes=[f"nonfinite|{n}"], sample={"case": case})
+
+
 def run_strings(case):
     kind, eqs = case["kind"], case["eq"]
     terms = TERMS[kind]
@@ -395,4 +432,4 @@ def run_system(case):
 
 
 def run_case(case):
-    return {"cube": run_cube, "strings": run_strings, "system": run_system}[case["type"]](case)
+    return {"cube": run_cube, "strings": run_strings, "system": run_system, "nonfinite": run_nonfinite}[case["type"]](case)
